@@ -128,9 +128,9 @@ def stepLine (w : World) (toks : List String) : World × String :=
       let script := buildScript vs
       let fwd := dir == "fwd"
       let r := PMap.weakWalk fwd 100000 w.pm (if fwd then w.pm.head else w.pm.tail) script
-      let allOps := (script.take r.2.length).flatMap (·.1)
+      let allOps := (script.take r.2.1.length).flatMap (·.1)
       let w' := { w with pm := r.1, am := allOps.foldl applyOpA w.am }
-      (w', s!"{showKVs (r.2.map (·.2))} | {dumpM w'}")
+      (w', s!"{showKVs (r.2.1.map (·.2))} ret={showBool r.2.2} | {dumpM w'}")
     | none => (w, "bad-op")
   | ["menc"] => (w, hex (encode encU16 encU8 w.pm.forEach))
   | ["mdec", h] =>
